@@ -127,9 +127,17 @@ impl Position {
                 }
             } else {
                 // if cx/cy (etc) are absent, SVG says they are treated as zero.
+                // (one length is the diameter on both axes, whichever it is written for,
+                // and whatever position is given on either axis counts)
                 if let Some(diameter) = self.width.or(self.height) {
                     let r = diameter / 2.;
-                    Some(BoundingBox::new(-r, -r, r, r))
+                    let (x1, x2) = self
+                        .three_point(diameter, self.xmin, self.cx, self.xmax)
+                        .unwrap_or((-r, r));
+                    let (y1, y2) = self
+                        .three_point(diameter, self.ymin, self.cy, self.ymax)
+                        .unwrap_or((-r, r));
+                    Some(BoundingBox::new(x1, y1, x2, y2))
                 } else {
                     None
                 }
